@@ -14,10 +14,12 @@ Ghost statements (strings, executed in spec mode): assignments to ghost variable
 '''
 import ast
 
-from .values import (Kind, KInt, KBool, KReal, KU, KList, KSet, KDict, KTuple, KOpt, KObj,
+from .values import (KRecord, KVarTuple, Kind, KInt, KBool, KReal, KU, KList, KSet, KDict, KTuple, KOpt, KObj,
                      KConst, KOneOf)
 
 Int, Bool, Real = KInt, KBool, KReal
+VarTuple = KVarTuple
+Record = KRecord
 
 
 class KCallable(Kind):
@@ -65,7 +67,7 @@ class Contract:
                  modifies=(), loops=None, locals=None, ghost=None, inline=False, pure=None,
                  props=(), trusted=None, maintains_inv=True, assumes_inv=True, generator=None,
                  interference=None, ghost_params=None, noreturn=False, havoc_calls=None,
-                 commit=None, canary=True, closure_env=None, prove_asserts=False, ghost_results=None):
+                 commit=None, canary=True, closure_env=None, prove_asserts=False, ghost_results=None, raises_args=None):
         self.key = key
         self.params = params or {}
         self.returns = returns
@@ -102,17 +104,19 @@ class Contract:
         self.canary = canary
         self.closure_env = closure_env
         self.ghost_results = ghost_results or {}
+        self.raises_args = raises_args or {}   # exception class -> callable(ip) -> tuple of argument values
         self.prove_asserts = prove_asserts
 
 
 class ClassSpec:
-    def __init__(self, key, fields=None, ghost=None, inv=(), consts=None, bases=()):
+    def __init__(self, key, fields=None, ghost=None, inv=(), consts=None, bases=(), methods=None):
         self.key = key
         self.fields = fields or {}
         self.ghost = ghost or {}
         self.inv = [_lab(i, x) for i, x in enumerate(inv)]
         self.consts = consts or {}
         self.bases = list(bases)
+        self.methods = methods or {}     # methods defined outside the repository: name -> contract key
 
 
 class Axiom:
